@@ -143,6 +143,17 @@ func checkDigraph(c *eng.Ctx, prop string, caseIdx int, r *Ref, u []Ident, order
 			} else {
 				viol("graph-cycle-error-class", "incremental", fmt.Sprintf("AddProvider error is %T", err))
 			}
+			// the rejected add was rolled back: the verdict (asked again, possibly from a cache
+			// that was valid before the add) is still "acyclic"
+			if err := g2.DetectCycles(); err != nil {
+				viol("graph-cycle-verdict", "after-rejected-add:"+graphShape(ref2), fmt.Sprintf("after AddProvider(%s) was rejected and rolled back, DetectCycles()=%v on a graph the reference knows to be acyclic", u[n].Name, err))
+				return
+			}
+			if !g2.IsAcyclic() {
+				viol("graph-cycle-verdict", "after-rejected-add:isacyclic:"+graphShape(ref2), "IsAcyclic()=false after a rejected add was rolled back")
+				return
+			}
+			stats["graph_verdicts_after_rejected_add"]++
 			continue
 		}
 		if err != nil {
@@ -150,6 +161,12 @@ func checkDigraph(c *eng.Ctx, prop string, caseIdx int, r *Ref, u []Ident, order
 			return
 		}
 		ref2 = trial
+		// ask between mutations too, so that later steps meet a clean (cached) verdict
+		if err := g2.DetectCycles(); err != nil {
+			viol("graph-cycle-verdict", "after-accepted-add:"+graphShape(ref2), fmt.Sprintf("after the accepted AddProvider(%s), DetectCycles()=%v", u[n].Name, err))
+			return
+		}
+		stats["graph_verdicts_between_adds"]++
 	}
 	if g2.IsAcyclic() != true {
 		viol("graph-cycle-verdict", "incremental-result", "graph built from accepted AddProvider calls is reported cyclic")
